@@ -122,12 +122,16 @@ func exprForms() []form {
 		{name: "for-if", text: `[for i, x in l : "${i}${x}" if x != "x"]`}, {name: "for-group", text: `{for x in l : x => x...}`},
 		{name: "splat-full", text: `l2[*].a`}, {name: "splat-attr", text: `l2.*.a`}, {name: "splat-index", text: `l2[*].a[0]`}, {name: "splat-bare", text: `l[*]`},
 		{name: "splat-attr-legacy-index", text: `l2.*.a.0`}, {name: "splat-attr-legacy-only", text: `l3.*.0`}, {name: "splat-full-legacy", text: `l2[*].a.0`},
+		{name: "splat-attr-bare", text: `l2.*`}, {name: "splat-attr-3-steps", text: `l2.*.a.0.x`}, {name: "splat-attr-spaced", text: `l2 . * . a . 0`},
+		{name: "splat-full-spaced", text: "l2[ * ] . a"}, {name: "splat-attr-after-trav", text: `o.a.*.b.c`}, {name: "splat-attr-after-call", text: `concat(l2, l2).*.a.0`},
+		{name: "splat-attr-after-paren", text: `(l2).*.a`}, {name: "splat-nested", text: `l3[*][*]`}, {name: "splat-attr-then-index", text: `l2.*.a[0]`},
 		{name: "legacy-index-attr", text: `l2.0.a`}, {name: "call-legacy-index", text: `concat(l, l).0`},
 		{name: "paren", text: `(v)`}, {name: "paren-multi", text: "(\n  1\n  +\n  2\n)", multi: true},
 		{name: "heredoc", text: "<<EOT\nhello ${v}\n  é" + eacute + " x\nEOT", heredoc: true, multi: true},
 		{name: "heredoc-flush", text: "<<-EOT\n    a\n      b ${v}\n    EOT", heredoc: true, multi: true},
 		{name: "heredoc-directive", text: "<<EOT\n%{ if t ~}\ny\n%{ endif ~}\nEOT", heredoc: true, multi: true},
 		{name: "heredoc-empty", text: "<<EOT\nEOT", heredoc: true, multi: true},
+		{name: "heredoc-lone-cr", text: "<<EOT\nx\ry ${v} z\nEOT", heredoc: true, multi: true},
 		{name: "heredoc-for", text: "<<E_1\n%{ for x in l }- ${x}\n%{ endfor ~}\nE_1", heredoc: true, multi: true},
 	}
 	return fs
@@ -226,6 +230,20 @@ func cfgContexts() []context {
 			} else {
 				w.put(" /* t */ // u\n")
 			}
+		}},
+		{"comments-lone-cr", func(w *bld, r *XBody, f form) {
+			// inline comments holding a CR that is not part of CRLF: one column,
+			// not a newline, so everything after them is still on the same line
+			w.put("/* c\rd */ ")
+			w.attr(r, "a", " /*\r*/ ", " ", f.text)
+			if f.heredoc {
+				w.put("\n")
+			} else {
+				w.put(" /* \r\r */ # t\ru\n")
+			}
+			w.put("/*\r*/")
+			w.attr(r, "z", " ", " /* e\r */ ", f.text)
+			w.put("\n")
 		}},
 		{"cluster-names", func(w *bld, r *XBody, f form) {
 			w.attr(r, "é"+eacute+"x", " ", " ", f.text)
